@@ -332,7 +332,10 @@ fn op_site_hist(req: &Value) -> Value {
                     if done {
                         break;
                     }
-                    events.push(ev);
+                    // "events": false keeps only the accumulated spectrum (long histories) - failing records are still listed
+                    if req["events"].as_bool().unwrap_or(true) || is_err {
+                        events.push(ev);
+                    }
                     // "after_error": "continue" keeps reading behind a record that failed (a library caller may skip it)
                     if is_err && req["after_error"].as_str() != Some("continue") {
                         break;
